@@ -28,6 +28,7 @@ type Ctx struct {
 	SPkg  map[string]*ssa.Package // short name -> ssa package (module only)
 	PPkg  map[string]*packages.Package
 	Funcs []*ssa.Function // every module function incl. anonymous, sorted by name
+	ownersMemo map[*ssa.Function][]string
 	CG    map[*ssa.Function][]*Edge
 	In    map[*ssa.Function][]*Edge
 
@@ -125,9 +126,7 @@ func fname1(f *ssa.Function) string {
 				}
 			}
 		}
-		if star != "" {
-			return fmt.Sprintf("%s.(*%s).%s", pk, tn, f.Name())
-		}
+		_ = star // names do not depend on the receiver kind: pkg.T.M for both (T) and (*T) receivers
 		return fmt.Sprintf("%s.%s.%s", pk, tn, f.Name())
 	}
 	return pk + "." + f.Name()
@@ -519,7 +518,7 @@ func (c *Ctx) findRoots() {
 		for _, b := range f.Blocks {
 			for _, ins := range b.Instrs {
 				if g, ok := ins.(*ssa.Go); ok {
-					if sc := g.Call.StaticCallee(); sc != nil && fname(sc) == "srv.(*APIServer).Start" {
+					if sc := g.Call.StaticCallee(); sc != nil && fname(sc) == "srv.APIServer.Start" {
 						sawGo = true
 					}
 					continue
@@ -625,6 +624,7 @@ func (c *Ctx) findRoots() {
 	c.Startup = c.fn("node.NewPegnetd")
 	c.RSync = c.reach(c.Sync)
 	c.RAPI = c.reach(c.API...)
+	backSliceCtx = c
 	c.RStartup = c.reach(c.Startup)
 	c.RBlock = c.reach(c.Block...)
 }
